@@ -63,8 +63,14 @@ theorem flag_init (n : Nat) : FlagInv HFlags.init (WState.init n : WState α) :=
   simp only [WState.init, List.mem_replicate] at hw
   rw [hw.2]
 
+/-- the two sub-steps of a producer call (the theorems of this file are about atomic calls) -/
+def isSubstep : Event α → Bool
+  | .stamp _ => true
+  | .publish _ => true
+  | _ => false
+
 theorem flag_step (s s' : WState α) (f : HFlags) (e : Event α) (r : Nat) (hf : FlagInv f s) (hm : MInv s)
-    (hstep : step s e = some (s', r)) : FlagInv (flagsAfter f e) s' := by
+    (hns : isSubstep e = false) (hstep : step s e = some (s', r)) : FlagInv (flagsAfter f e) s' := by
   obtain ⟨f1, f2, f3⟩ := hf
   have grow3 : ∀ (n : Nat) (b : Bool), s.committed = [] ∨ (s.metas.opstamp ≤ s.stamper + n + 1 ∧ (b = true ∨ s.metas.opstamp < s.stamper + n + 1)) := by
     intro n b
@@ -245,10 +251,12 @@ theorem flag_step (s s' : WState α) (f : HFlags) (e : Event α) (r : Nat) (hf :
         · simp only [Option.some.injEq, Prod.mk.injEq] at hstep
           obtain ⟨rfl, _⟩ := hstep
           exact ⟨f1, f2, f3⟩
+  | stamp op => simp [isSubstep] at hns
+  | publish k => simp [isSubstep] at hns
 
 /-- the history-level hypothesis on an API call gives the state-level hypothesis on the event -/
 theorem okEvent2_of_flags (s : WState α) (f : HFlags) (e : Event α) (hf : FlagInv f s)
-    (hok : ∀ op, e.toOp = some op → okOp f op) : okEvent2 s e := by
+    (hns : isSubstep e = false) (hok : ∀ op, e.toOp = some op → okOp f op) : okEvent2 s e := by
   cases e with
   | deleteAll =>
     obtain ⟨h1, h2⟩ := hok .deleteAll rfl
@@ -282,6 +290,8 @@ theorem okEvent2_of_flags (s : WState α) (f : HFlags) (e : Event α) (hf : Flag
               have := (batchDels_bounds rest (s.stamper + 1) del hdel).1
               omega
       · omega
+  | stamp op => simp [isSubstep] at hns
+  | publish k => simp [isSubstep] at hns
   | _ => trivial
 
 theorem history_cons' (e : Event α) (es : List (Event α)) :
@@ -291,11 +301,12 @@ theorem history_cons' (e : Event α) (es : List (Event α)) :
 
 /-- history-level hypotheses ⇒ state-level hypotheses, along every run with that history -/
 theorem okRun2_of_okHist (s : WState α) (t : SpecState α) (f : HFlags) (es : List (Event α))
-    (hw : WInv s t.pending t.committed) (hm : MInv s) (hf : FlagInv f s) (hh : okHist f (history es)) :
-    okRun2 s es := by
+    (hw : WInv s t.pending t.committed) (hm : MInv s) (hf : FlagInv f s) (hh : okHist f (history es))
+    (hns : es.all (fun e => !isSubstep e) = true) : okRun2 s es := by
   induction es generalizing s t f with
   | nil => trivial
   | cons e es ih =>
+    simp only [List.all_cons, Bool.and_eq_true, Bool.not_eq_true'] at hns
     rw [history_cons'] at hh
     have hok : ∀ op, e.toOp = some op → okOp f op := by
       intro op he
@@ -306,10 +317,11 @@ theorem okRun2_of_okHist (s : WState α) (t : SpecState α) (f : HFlags) (es : L
       cases he : e.toOp with
       | none => rw [he] at hh; simpa using hh
       | some op => rw [he] at hh; exact hh.2
-    have hev := okEvent2_of_flags s f e hf hok
+    have hev := okEvent2_of_flags s f e hf hns.1 hok
     refine ⟨hev, ?_⟩
     intro s' r hstep
     obtain ⟨hw', hm'⟩ := inv_step2 s s' t e r hw hm hev hstep
-    exact ih s' (specAfter t e) (flagsAfter f e) hw' hm' (flag_step s s' f e r hf hm hstep) hrest
+    exact ih s' (specAfter t e) (flagsAfter f e) hw' hm' (flag_step s s' f e r hf hm hns.1 hstep) hrest
+      (by simpa using hns.2)
 
 end TantivyModel.Writer
